@@ -156,29 +156,37 @@ structure DecOut (L : Type) where
 /-! ## decodeIPv6HeaderTLVOption -/
 
 /-- Returns the option (ok), or an error, plus whether SetTruncated was called. -/
-def decodeTlv (v : View) : Res Tlv × Bool :=
+def decodeTlvRest (v : View) : Res Tlv × Bool :=
   if v.len < 2 then (.err "IPv6 header option too small", true)
   else
     match v.idx 0 with
     | .panic k => (.panic k, false)
     | .err e => (.err e, false)
     | .ok t =>
-      if t = 0 then
-        (.ok { typ := 0, len := 0, alen := 1, data := none, ax := 0, ay := 0 }, false)
-      else
-        match v.idx 1 with
-        | .panic k => (.panic k, false)
-        | .err e => (.err e, false)
-        | .ok l =>
-          let alen := l.toNat + 2
-          if v.len < alen then (.err "IPv6 header TLV option too small", true)
-          else
-            match v.slice 2 alen with
-            | .panic k => (.panic k, false)
-            | .err e => (.err e, false)
-            | .ok d =>
-              (.ok { typ := t.toNat, len := l.toNat, alen := alen, data := some d.b,
-                     ax := 0, ay := 0 }, false)
+      match v.idx 1 with
+      | .panic k => (.panic k, false)
+      | .err e => (.err e, false)
+      | .ok l =>
+        let alen := l.toNat + 2
+        if v.len < alen then (.err "IPv6 header TLV option too small", true)
+        else
+          match v.slice 2 alen with
+          | .panic k => (.panic k, false)
+          | .err e => (.err e, false)
+          | .ok d =>
+            (.ok { typ := t.toNat, len := l.toNat, alen := alen, data := some d.b,
+                   ax := 0, ay := 0 }, false)
+
+def pad1 : Tlv := { typ := 0, len := 0, alen := 1, data := none, ax := 0, ay := 0 }
+
+def decodeTlv (v : View) : Res Tlv × Bool :=
+  -- `if len(data) > 0 && data[0] == 0 { return &ipv6HeaderTLVOption{ActualLength: 1}, nil }`
+  if 0 < v.len then
+    match v.idx 0 with
+    | .panic k => (.panic k, false)
+    | .err e => (.err e, false)
+    | .ok t => if t = 0 then (.ok pad1, false) else decodeTlvRest v
+  else decodeTlvRest v
 
 /-! ## decodeIPv6ExtensionBase -/
 
@@ -199,7 +207,7 @@ def decodeExtBase (v : View) : Res ExtBase × Bool :=
 
 /-! ## The option loop of (*IPv6HopByHop).DecodeFromBytes / (*IPv6Destination).DecodeFromBytes
 
-  `for offset < i.ActualLength { opt, err := decodeIPv6HeaderTLVOption(data[offset:], df); … }`
+  `for offset < i.ActualLength { opt, err := decodeIPv6HeaderTLVOption(data[offset:i.ActualLength], df); … }`
   Returns the options appended before the loop stopped, the truncation flag and the outcome.
   Every iteration advances `offset` by `ActualLength ≥ 1`; the recursion is on `fuel`
   (initially `ActualLength`), running out of fuel is a `.panic .explicit` which
@@ -210,7 +218,7 @@ def tlvLoop (v : View) (al : Nat) : Nat → Nat → (List Tlv × Bool × Res Uni
       match fuel with
       | 0 => ([], false, .panic .explicit)
       | fuel + 1 =>
-        match v.sliceFrom off with
+        match v.slice off al with
         | .panic k => ([], false, .panic k)
         | .err e => ([], false, .err e)
         | .ok d =>
@@ -222,10 +230,11 @@ def tlvLoop (v : View) (al : Nat) : Nat → Nat → (List Tlv × Bool × Res Uni
             (o :: r.1, tr || r.2.1, r.2.2)
     else ([], false, .ok ())
 
-/-- Which of the two TLV extension headers (they differ in one line). -/
+/-- Which of the two TLV extension headers (their DecodeFromBytes bodies are identical:
+    both reset `i.Options = i.Options[:0]` before the loop). -/
 inductive ExtKind where
-  | hopByHop      -- `i.Options = i.Options[:0]` before the loop
-  | destination   -- no reset: options are appended to whatever the object held
+  | hopByHop
+  | destination
   deriving Repr, DecidableEq, Inhabited
 
 /-- (*IPv6HopByHop).DecodeFromBytes / (*IPv6Destination).DecodeFromBytes. -/
@@ -235,9 +244,10 @@ def decodeTlvExt (k : ExtKind) (old : TlvExt) (v : View) : DecOut TlvExt :=
   -- `i.ipv6ExtensionBase, err = decodeIPv6ExtensionBase(...)` assigns the zero base on error
   | (.err e, tr) => ⟨{ old with base := ExtBase.zero }, tr, .err e⟩
   | (.ok base, tr) =>
-    let opts0 := match k with
+    -- `i.Options = i.Options[:0]`: nothing of the old list survives (only its capacity is reused)
+    let opts0 : List Tlv := match k with
       | .hopByHop => []
-      | .destination => old.options
+      | .destination => []
     let r := tlvLoop v base.actualLength base.actualLength 2
     ⟨{ base := base, options := opts0 ++ r.1 }, tr || r.2.1, r.2.2⟩
 
@@ -324,13 +334,11 @@ def decodeIPv6 (old : IPv6) (v : View) : DecOut IPv6 :=
                    nextHeader := h.nh, hopLimit := h.hl, srcIP := h.src, dstIP := h.dst,
                    hopByHop := none, contents := h.contents, payload := h.payload.b }
       -- tail shared by the no-HBH path and the plain-HBH path
-      let finish (l : IPv6) (p : View) (tr : Bool) : DecOut IPv6 :=
-        if l.length = 0 then ⟨l, tr, .err "IPv6 length 0, but next header is not HopByHop"⟩
-        else
-          match clampPayload p l.length with
-          | .ok (q, t2) => ⟨{ l with payload := q }, tr || t2, .ok ()⟩
-          | .err e => ⟨l, tr, .err e⟩
-          | .panic k => ⟨l, tr, .panic k⟩
+      let finish (l : IPv6) (p : View) (tr : Bool) (pEnd : Nat) : DecOut IPv6 :=
+        match clampPayload p pEnd with
+        | .ok (q, t2) => ⟨{ l with payload := q }, tr || t2, .ok ()⟩
+        | .err e => ⟨l, tr, .err e⟩
+        | .panic k => ⟨l, tr, .panic k⟩
       if h.nh = ipProtocolIPv6HopByHop then
         let ho := decodeTlvExt .hopByHop old.hbh h.payload
         let l2 : IPv6 := { l1 with hbh := ho.layer }
@@ -357,8 +365,13 @@ def decodeIPv6 (old : IPv6) (v : View) : DecOut IPv6 :=
               match h.payload.sliceFrom ho.layer.base.actualLength with
               | .panic k => ⟨l3, ho.tr, .panic k⟩
               | .err e => ⟨l3, ho.tr, .err e⟩
-              | .ok p2 => finish { l3 with payload := p2.b } p2 ho.tr
-      else finish l1 h.payload false
+              | .ok p2 =>
+                let l4 : IPv6 := { l3 with payload := p2.b }
+                -- pEnd := int(ipv6.Length) - ipv6.hbh.ActualLength; negative is an error
+                if l4.length < ho.layer.base.actualLength then
+                  ⟨l4, ho.tr, .err "IPv6 length less than hop-by-hop header length"⟩
+                else finish l4 p2 ho.tr (l4.length - ho.layer.base.actualLength)
+      else finish l1 h.payload false l1.length
 
 /-! ## NextLayerType / CanDecode / LayerPayload -/
 
